@@ -233,6 +233,16 @@ def run(tier, seed):
       ob = np.asarray(wb.warp(yb.copy()))
       back_a = np.asarray(wa.unwarp(oa.copy())).flatten()
       back_b = np.asarray(wb.unwarp(ob.copy())).flatten()
+      # un-warping is a function of the fitted pipeline: a second and third call give the same answer (the GP designers
+      # un-warp once per posterior sample)
+      again = [np.asarray(wa.unwarp(oa.copy())).flatten() for _ in range(2)]
+      if any(x.shape != back_a.shape or not np.allclose(x, back_a, atol=0, rtol=1e-12, equal_nan=True) for x in again):
+        viol('un-warping the same warped labels again with the same pipeline gives a different answer',
+             {'labels': ya.flatten().tolist(), 'first': back_a.tolist(), 'later': [x.tolist() for x in again]})
+      rewarp = np.asarray(wa.warp(ya.copy())).flatten()
+      if not np.allclose(rewarp, oa.flatten(), atol=0, rtol=1e-12, equal_nan=True):
+        viol('warping the same labels again with the same pipeline (after un-warping) gives a different answer',
+             {'labels': ya.flatten().tolist(), 'first': oa.flatten().tolist(), 'second': rewarp.tolist()})
       rep.case({'two_default_warpers': [ya.flatten().tolist(), yb.flatten().tolist()]}, True)
       rep.count('two_warpers_interleaved')
       tol_a = 1e-6 * max(1.0, float(np.abs(ya).max()))
